@@ -372,7 +372,7 @@ func TestPropRoundTrip(t *testing.T) {
 		case "array":
 			c.U = boundaryU64(t, "u") >> 1 // EncodeArrayHeader takes a non-negative int
 		default:
-			l := rapid.SampledFrom([]int{0, 1, 22, 23, 24, 25, 254, 255, 256, 257, 65534, 65535, 65536, 65537}).Draw(t, "len")
+			l := rapid.SampledFrom([]int{0, 1, 22, 23, 24, 25, 254, 255, 256, 257, 65534, 65535, 65536, 65537, 63, 64, 65, 127, 128, 129, 511, 512, 513, 4095, 4096, 4097}).Draw(t, "len")
 			if rapid.Bool().Draw(t, "randlen") {
 				l = rapid.IntRange(0, 300).Draw(t, "len2")
 			}
@@ -551,7 +551,7 @@ func TestPropStream(t *testing.T) {
 			major := rapid.SampledFrom([]int{0, 0, 2, 3, 4, 5, 1, 6, 7}).Draw(t, "major")
 			var arg uint64
 			if major == 2 || major == 3 {
-				arg = uint64(rapid.SampledFrom([]int{0, 1, 5, 23, 24, 255, 256, 300}).Draw(t, "len"))
+				arg = uint64(rapid.SampledFrom([]int{0, 1, 5, 23, 24, 255, 256, 300, 64, 65, 128, 129, 512, 513, 4097}).Draw(t, "len"))
 			} else {
 				arg = boundaryU64(t, "arg")
 			}
@@ -775,4 +775,52 @@ func TestPropResume(t *testing.T) {
 		c.Chunk = rapid.SampledFrom([]int{0, 0, 1, 3}).Draw(t, "chunk")
 		return c
 	})
+}
+
+// --------------------------------------------------------------------- every code point in a text
+//
+// "invalid UTF-8 text" is an error, every valid text returns its exact value: each of the
+// 0x110000 code points (surrogates included, encoded the generalised way, which is invalid UTF-8)
+// as the only / last character of a text string, decoded once. The expected verdict is Go's
+// unicode/utf8, independent of the decoder under test. Evaluated in bulk; an offending input is
+// re-evaluated through the "call" sub-check so that it is reported and replayable like any case.
+func TestExhaustiveCodePoints(t *testing.T) {
+	enc := func(cp rune) []byte {
+		switch {
+		case cp < 0x80:
+			return []byte{byte(cp)}
+		case cp < 0x800:
+			return []byte{0xc0 | byte(cp>>6), 0x80 | byte(cp)&0x3f}
+		case cp < 0x10000:
+			return []byte{0xe0 | byte(cp>>12), 0x80 | byte(cp>>6)&0x3f, 0x80 | byte(cp)&0x3f}
+		}
+		return []byte{0xf0 | byte(cp>>18), 0x80 | byte(cp>>12)&0x3f, 0x80 | byte(cp>>6)&0x3f, 0x80 | byte(cp)&0x3f}
+	}
+	var evals, nt int64
+	classes := map[string]int64{}
+	step := rune(vh.Scale(1, 1))
+	for cp := rune(0); cp < 0x110000; cp += step {
+		for variant := 0; variant < 2; variant++ {
+			content := enc(cp)
+			if variant == 1 {
+				content = append([]byte("ab"), content...)
+			}
+			in := append(refcbor.HeadW(3, uint64(len(content)), refcbor.MinWidth(uint64(len(content)))), content...)
+			got := call(cbor.NewDecoder(bytes.NewReader(in)), "text")
+			want := utf8.Valid(content)
+			evals++
+			nt++
+			if want {
+				classes["codepoint-valid"]++
+			} else {
+				classes["codepoint-surrogate"]++
+			}
+			if got.ok != want || (want && !bytes.Equal(got.str, content)) {
+				callProp.One(t, CallCase{Input: in, Method: "text", Chunk: -1})
+				t.Fatalf("c12: text with code point U+%04X: decoder ok=%v value %x, expected ok=%v", cp, got.ok, got.str, want)
+			}
+		}
+	}
+	vh.Bulk("call", evals, nt, classes, CallCase{Input: append([]byte{0x63}, enc(0xfffd)...), Method: "text", Chunk: -1})
+	vh.Exhaustive("call", "text strings holding each of the 0x110000 code points (incl. the surrogate range, which is invalid UTF-8) alone and after an ASCII prefix: accepted exactly when the content is valid UTF-8, with the exact value")
 }
